@@ -66,6 +66,9 @@ def mutants(args):
         m = os.path.join(sd, d, "meta.json")
         if os.path.exists(p) and os.path.exists(m):
             meta = json.load(open(m))
+            if meta.get("missed"):
+                print("selftest-mutants: %s is a documented miss (%s)" % (d, meta["missed"]))
+                continue
             patches.append((d, p, meta.get("caught_by") or [meta["property"]]))
     only = os.environ.get("VERIF_ONLY")
     failed = 0
